@@ -61,16 +61,92 @@ impl Channel {
     pub fn read_fri_layer_commitments(&mut self) -> (r: Vec<Digest>) ensures r@ == old(self).commitments@ { unimplemented!() }
 }
 
-pub uninterp spec fn nfl(folding: int, blowup: int, rmd: int, domain: int) -> int;
+// the number of folding steps of a schedule: fold (floor-divide by the folding factor) while the domain is larger than
+// (remainder_max_degree + 1) * blowup
+pub open spec fn nfl(folding: int, blowup: int, rmd: int, domain: int) -> int
+    decreases domain
+{
+    // (the last conjunct always holds for folding >= 2 and domain >= 1 - lemma_div_decreases -; it makes termination evident)
+    if folding >= 2 && domain > (rmd + 1) * blowup && domain > 0 && domain / folding < domain { 1 + nfl(folding, blowup, rmd, domain / folding) } else { 0 }
+}
 #[derive(Clone)]
 pub struct FriOptions { pub folding_factor: usize, pub blowup_factor: usize, pub remainder_max_degree: usize }
 impl FriOptions {
     pub fn folding_factor(&self) -> (r: usize) ensures r == self.folding_factor { self.folding_factor }
     pub fn blowup_factor(&self) -> (r: usize) ensures r == self.blowup_factor { self.blowup_factor }
-    #[verifier::external_body]
+    //@@ source fri/src/options.rs
+    //@@ extract anchor="pub fn num_fri_layers(&self, mut domain_size: usize) -> usize"
+    //@@ rewrite "let mut result = 0;" => "let mut result: usize = 0;"
+    //@@ loop 1
+    //@@|            invariant
+    //@@|                self.folding_factor >= 2, max_remainder_size == (self.remainder_max_degree + 1) * self.blowup_factor, result <= 64,
+    //@@|                result + nfl(self.folding_factor as int, self.blowup_factor as int, self.remainder_max_degree as int, domain_size as int) == total,
+    //@@|                (domain_size as int) * pow2i(result as int) <= d0, d0 <= usize::MAX,
+    //@@|            decreases domain_size
+    //@@ loopstart 1
+    //@@|            proof {
+    //@@|                // at most 64 halvings fit below 2^64: result < 64 here because domain_size >= 1 after result halvings of at least 2
+    //@@|                vstd::arithmetic::div_mod::lemma_div_decreases(domain_size as int, self.folding_factor as int);
+    //@@|                assert((self.remainder_max_degree + 1) * self.blowup_factor >= 0) by (nonlinear_arith) requires self.remainder_max_degree >= 0, self.blowup_factor >= 0;
+    //@@|                lemma_pow2i_bound(domain_size as int, result as int, d0);
+    //@@|                assert((domain_size / self.folding_factor) as int * pow2i(result as int + 1) <= d0) by {
+    //@@|                    lemma_div_step(domain_size as int, self.folding_factor as int, result as int, d0);
+    //@@|                }
+    //@@|            }
     pub fn num_fri_layers(&self, domain_size: usize) -> (r: usize)
+        requires self.folding_factor >= 2, self.remainder_max_degree < usize::MAX, (self.remainder_max_degree + 1) * self.blowup_factor <= usize::MAX
         ensures r == nfl(self.folding_factor as int, self.blowup_factor as int, self.remainder_max_degree as int, domain_size as int), r <= 64
-    { unimplemented!() }
+    {
+        let ghost d0 = domain_size as int;
+        let ghost total = nfl(self.folding_factor as int, self.blowup_factor as int, self.remainder_max_degree as int, domain_size as int);
+        proof { assert(pow2i(0) == 1); }
+        let mut domain_size = domain_size;   // the source declares the parameter `mut`
+        /*@@body*/
+    }
+}
+pub open spec fn pow2i(k: int) -> int
+    decreases k
+{
+    if k <= 0 { 1 } else { 2 * pow2i(k - 1) }
+}
+proof fn lemma_pow2i_mono(k: int)
+    requires k >= 0
+    ensures pow2i(k) >= 1, pow2i(k + 1) == 2 * pow2i(k)
+    decreases k
+{
+    if k > 0 { lemma_pow2i_mono(k - 1); }
+}
+// d * 2^k <= d0 <= usize::MAX with d >= 1  ==>  k < 64
+proof fn lemma_pow2i_bound(d: int, k: int, d0: int)
+    requires d >= 1, k >= 0, d * pow2i(k) <= d0, d0 <= usize::MAX
+    ensures k < 64
+{
+    if k >= 64 {
+        lemma_pow2i_ge(k);
+        assert(d * pow2i(k) >= pow2i(k)) by (nonlinear_arith) requires d >= 1, pow2i(k) >= 1;
+    }
+}
+proof fn lemma_pow2i_ge(k: int)
+    requires k >= 64
+    ensures pow2i(k) >= 0x1_0000_0000_0000_0000
+    decreases k
+{
+    if k == 64 {
+        assert(pow2i(64) == 0x1_0000_0000_0000_0000) by (compute);
+    } else {
+        lemma_pow2i_ge(k - 1);
+    }
+}
+proof fn lemma_div_step(d: int, n: int, k: int, d0: int)
+    requires d >= 1, n >= 2, k >= 0, d * pow2i(k) <= d0
+    ensures (d / n) * pow2i(k + 1) <= d0
+{
+    lemma_pow2i_mono(k);
+    vstd::arithmetic::div_mod::lemma_fundamental_div_mod(d, n);
+    let q = d / n;
+    assert(q * 2 <= d) by (nonlinear_arith) requires d == n * q + d % n, d % n >= 0, n >= 2, q >= 0;
+    assert(q >= 0) by { vstd::arithmetic::div_mod::lemma_div_pos_is_pos(d, n); }
+    assert(q * (2 * pow2i(k)) <= d * pow2i(k)) by (nonlinear_arith) requires q * 2 <= d, pow2i(k) >= 1;
 }
 pub uninterp spec fn npt(x: int) -> int;
 pub uninterp spec fn log2f(x: int) -> int;
@@ -151,7 +227,8 @@ impl FriVerifier {
         max_poly_degree: usize,
     ) -> (r: Result<Self, VerifierError>)
         requires
-            max_poly_degree < usize::MAX, options.folding_factor >= 1, options.blowup_factor >= 1,
+            max_poly_degree < usize::MAX, options.folding_factor >= 2, options.blowup_factor >= 1,
+            options.remainder_max_degree < usize::MAX, (options.remainder_max_degree + 1) * options.blowup_factor <= usize::MAX,
             npt(max_poly_degree as int) <= usize::MAX, npt(max_poly_degree as int) * options.blowup_factor <= usize::MAX,
         ensures
             ({
